@@ -33,7 +33,8 @@ RULE = ("scenario = (program with an async contracted function (gated preconditi
         "run alone in a fresh thread. non-trivial = a schedule in which a violating call starts while another call of "
         "the same function/object is suspended inside its check or body; distinct = hash(scenario, mode, schedule).")
 ASSUMPTIONS = ["pre-emption between two bytecodes inside the library's wrappers is not scheduled (threads switch only at "
-               "gates in user code); see DESIGN section 7",
+               "gates in user code: conditions, captures, bodies and the __repr__ of an argument while a violation "
+               "message is built); see DESIGN section 7",
                "emulated tasks reproduce asyncio's context handling (Task.__step runs in the task's Context)"]
 KNOWN = {
     "D11": lambda bucket, case: "mode:copied-after" in bucket or "mode:thread-copied-after" in bucket,
@@ -293,6 +294,18 @@ def run_thread_schedule(loaded, names, mode, schedule):
                         ("body", "K0.n")):
                 run.hooks[key] = gate_hook(None)
 
+            repr_gate = gate_hook(None)
+
+            class GateRepr:
+                """The argument of a call: rendering it (while a violation message is built) is a switch point too."""
+
+                def __init__(self, label):
+                    self.label = label
+
+                def __repr__(self):
+                    repr_gate(run, {})
+                    return "<%s>" % self.label
+
             def worker(i):
                 def body():
                     run.tl.task = i
@@ -301,6 +314,8 @@ def run_thread_schedule(loaded, names, mode, schedule):
                     go_ev[i].clear()
                     op = make_op(names[i], i)
                     kw = ex.arg_objects(op)
+                    if "x" in kw:
+                        kw["x"] = GateRepr("a:t%d" % i)
                     if op["op"] == "callf":
                         fn = lambda: getattr(loaded.mod, op["f"])(**kw)
                     elif op["op"] == "call":
